@@ -6,12 +6,12 @@ props = [json.loads(l) for l in open(os.path.join(V, 'properties.jsonl'))]
 MC = 'model_checking'
 CLAIMS = {
  'C01': dict(
-    technique='TLA+ specification of the session (Swarm.tla: manager, connection tasks, command/reply/broadcast channels, piece store) model-checked by TLC on a bounded instance; full-stack executions of the real Session/PeerHandler/Connection recorded through cfg(rdest_verif) hooks and validated event by event against the specification by TLC (SwarmTrace.tla); wire/disk oracles on the same runs',
+    technique='TLA+ specification of the session (Swarm.tla: manager, connection tasks, command/reply/broadcast channels, piece store) model-checked by TLC on a bounded instance; full-stack executions of the real Session/PeerHandler/Connection recorded through cfg(rdest_verif) hooks and validated event by event against the specification by TLC (SwarmTrace.tla); executions the specification does not explain are re-read by TLC at property level (SwarmObs.tla: logged states, property formulas and per-step formulas, no specification action) so that only a broken property, not a changed behaviour, is reported; wire/disk oracles on the same runs',
     text='Every interleaving of the bounded model satisfies owned/served/advertised => stored and that a corrupt assembly is never stored; adversarial and honest full-stack runs (corrupt, duplicated, odd, unrequested blocks, disconnects, several peers) are accepted by the spec with the spec store bound to the scanned directory after every step, and every piece file on disk must hash to its piece.',
     note='Trusted: TLC, the trace re-encoding in lib/swarm_trace.py (renaming/indexing only), in-memory duplex streams + current_thread runtime + paused clock instead of TCP/multi-thread runtime, SHA-1. Hook events are cross-checked against the bytes observed at the remote end. Design-level exploration is bounded (2-3 peers, 1-3 pieces, fuel-limited adversarial remotes).',
     ref='DESIGN.md 6/C01, 5.1'),
  'C02': dict(
-    technique='TLA+ specification of the session (Swarm.tla: manager, connection tasks, command/reply/broadcast channels, piece store) model-checked by TLC on a bounded instance; full-stack executions of the real Session/PeerHandler/Connection recorded through cfg(rdest_verif) hooks and validated event by event against the specification by TLC (SwarmTrace.tla); wire/disk oracles on the same runs',
+    technique='TLA+ specification of the session (Swarm.tla: manager, connection tasks, command/reply/broadcast channels, piece store) model-checked by TLC on a bounded instance; full-stack executions of the real Session/PeerHandler/Connection recorded through cfg(rdest_verif) hooks and validated event by event against the specification by TLC (SwarmTrace.tla); executions the specification does not explain are re-read by TLC at property level (SwarmObs.tla: logged states, property formulas and per-step formulas, no specification action) so that only a broken property, not a changed behaviour, is reported; wire/disk oracles on the same runs',
     text='Honest swarms with random geometry, piece distribution, segmentation, incoming/outgoing peers and non-essential peers leaving must finish with byte-identical files and a live session in bounded virtual time; all traces validated. Liveness on the model is limited to the bounded safety exploration (see DESIGN.md limits).',
     note='Trusted: TLC, the trace re-encoding in lib/swarm_trace.py (renaming/indexing only), in-memory duplex streams + current_thread runtime + paused clock instead of TCP/multi-thread runtime, SHA-1. Hook events are cross-checked against the bytes observed at the remote end. Design-level exploration is bounded (2-3 peers, 1-3 pieces, fuel-limited adversarial remotes).',
     ref='DESIGN.md 6/C02'),
@@ -41,37 +41,37 @@ CLAIMS = {
     note='Trusted: TLC, Wire.tla, payload expansion in the harness. Values between boundary classes are sampled.',
     ref='DESIGN.md 6/C07, 5.3'),
  'C08': dict(
-    technique='TLA+ specification of the session (Swarm.tla: manager, connection tasks, command/reply/broadcast channels, piece store) model-checked by TLC on a bounded instance; full-stack executions of the real Session/PeerHandler/Connection recorded through cfg(rdest_verif) hooks and validated event by event against the specification by TLC (SwarmTrace.tla); wire/disk oracles on the same runs',
+    technique='TLA+ specification of the session (Swarm.tla: manager, connection tasks, command/reply/broadcast channels, piece store) model-checked by TLC on a bounded instance; full-stack executions of the real Session/PeerHandler/Connection recorded through cfg(rdest_verif) hooks and validated event by event against the specification by TLC (SwarmTrace.tla); executions the specification does not explain are re-read by TLC at property level (SwarmObs.tla: logged states, property formulas and per-step formulas, no specification action) so that only a broken property, not a changed behaviour, is reported; wire/disk oracles on the same runs',
     text='Model: nothing but our handshake/keep-alives before a valid remote handshake on incoming connections, no piece data without handshake on any connection. Implementation: every handshake kind at any point of a history on incoming and outgoing connections with a seeded store; wire-level silence and closing after an invalid handshake.',
     note='Trusted: TLC, the trace re-encoding in lib/swarm_trace.py (renaming/indexing only), in-memory duplex streams + current_thread runtime + paused clock instead of TCP/multi-thread runtime, SHA-1. Hook events are cross-checked against the bytes observed at the remote end. Design-level exploration is bounded (2-3 peers, 1-3 pieces, fuel-limited adversarial remotes).',
     ref='DESIGN.md 6/C08'),
  'C09': dict(
-    technique='TLA+ specification of the session (Swarm.tla: manager, connection tasks, command/reply/broadcast channels, piece store) model-checked by TLC on a bounded instance; full-stack executions of the real Session/PeerHandler/Connection recorded through cfg(rdest_verif) hooks and validated event by event against the specification by TLC (SwarmTrace.tla); wire/disk oracles on the same runs',
+    technique='TLA+ specification of the session (Swarm.tla: manager, connection tasks, command/reply/broadcast channels, piece store) model-checked by TLC on a bounded instance; full-stack executions of the real Session/PeerHandler/Connection recorded through cfg(rdest_verif) hooks and validated event by event against the specification by TLC (SwarmTrace.tla); executions the specification does not explain are re-read by TLC at property level (SwarmObs.tla: logged states, property formulas and per-step formulas, no specification action) so that only a broken property, not a changed behaviour, is reported; wire/disk oracles on the same runs',
     text='Model: piece data only while unchoked (wire or manager view), loaded piece dropped on own Choke. Implementation: request menus incl. wrapping ranges, unknown and not-owned indices before/after a rotation chokes the requester; every Piece frame must answer an outstanding request with the stored bytes.',
     note='Trusted: TLC, the trace re-encoding in lib/swarm_trace.py (renaming/indexing only), in-memory duplex streams + current_thread runtime + paused clock instead of TCP/multi-thread runtime, SHA-1. Hook events are cross-checked against the bytes observed at the remote end. Design-level exploration is bounded (2-3 peers, 1-3 pieces, fuel-limited adversarial remotes).',
     ref='DESIGN.md 6/C09'),
  'C10': dict(
-    technique='TLA+ specification of the session (Swarm.tla: manager, connection tasks, command/reply/broadcast channels, piece store) model-checked by TLC on a bounded instance; full-stack executions of the real Session/PeerHandler/Connection recorded through cfg(rdest_verif) hooks and validated event by event against the specification by TLC (SwarmTrace.tla); wire/disk oracles on the same runs',
+    technique='TLA+ specification of the session (Swarm.tla: manager, connection tasks, command/reply/broadcast channels, piece store) model-checked by TLC on a bounded instance; full-stack executions of the real Session/PeerHandler/Connection recorded through cfg(rdest_verif) hooks and validated event by event against the specification by TLC (SwarmTrace.tla); executions the specification does not explain are re-read by TLC at property level (SwarmObs.tla: logged states, property formulas and per-step formulas, no specification action) so that only a broken property, not a changed behaviour, is reported; wire/disk oracles on the same runs',
     text='Model: RxShape/RequestsTile on every step for 1-3 block pieces. Implementation: logged requested/left queues after every task step must be the ones the spec produces (blocks in order, once, next request after every accepted block, completion exactly at the last outstanding block); wire requests must be proper blocks.',
     note='Trusted: TLC, the trace re-encoding in lib/swarm_trace.py (renaming/indexing only), in-memory duplex streams + current_thread runtime + paused clock instead of TCP/multi-thread runtime, SHA-1. Hook events are cross-checked against the bytes observed at the remote end. Design-level exploration is bounded (2-3 peers, 1-3 pieces, fuel-limited adversarial remotes).',
     ref='DESIGN.md 6/C10'),
  'C11': dict(
-    technique='TLA+ specification of the session (Swarm.tla: manager, connection tasks, command/reply/broadcast channels, piece store) model-checked by TLC on a bounded instance; full-stack executions of the real Session/PeerHandler/Connection recorded through cfg(rdest_verif) hooks and validated event by event against the specification by TLC (SwarmTrace.tla); wire/disk oracles on the same runs',
+    technique='TLA+ specification of the session (Swarm.tla: manager, connection tasks, command/reply/broadcast channels, piece store) model-checked by TLC on a bounded instance; full-stack executions of the real Session/PeerHandler/Connection recorded through cfg(rdest_verif) hooks and validated event by event against the specification by TLC (SwarmTrace.tla); executions the specification does not explain are re-read by TLC at property level (SwarmObs.tla: logged states, property formulas and per-step formulas, no specification action) so that only a broken property, not a changed behaviour, is reported; wire/disk oracles on the same runs',
     text='Model: ghost sequences due/ann prove in-order, loss-free announcement (AnnouncedInOrder) incl. deferral while choked; bitfield subset of store. Implementation: bitfield on the wire must equal the stored set at that moment, Have only after store, deferred Haves flushed at Unchoke in completion order.',
     note='Trusted: TLC, the trace re-encoding in lib/swarm_trace.py (renaming/indexing only), in-memory duplex streams + current_thread runtime + paused clock instead of TCP/multi-thread runtime, SHA-1. Hook events are cross-checked against the bytes observed at the remote end. Design-level exploration is bounded (2-3 peers, 1-3 pieces, fuel-limited adversarial remotes).',
     ref='DESIGN.md 6/C11'),
  'C12': dict(
-    technique='TLA+ specification of the session (Swarm.tla: manager, connection tasks, command/reply/broadcast channels, piece store) model-checked by TLC on a bounded instance; full-stack executions of the real Session/PeerHandler/Connection recorded through cfg(rdest_verif) hooks and validated event by event against the specification by TLC (SwarmTrace.tla); wire/disk oracles on the same runs',
+    technique='TLA+ specification of the session (Swarm.tla: manager, connection tasks, command/reply/broadcast channels, piece store) model-checked by TLC on a bounded instance; full-stack executions of the real Session/PeerHandler/Connection recorded through cfg(rdest_verif) hooks and validated event by event against the specification by TLC (SwarmTrace.tla); executions the specification does not explain are re-read by TLC at property level (SwarmObs.tla: logged states, property formulas and per-step formulas, no specification action) so that only a broken property, not a changed behaviour, is reported; wire/disk oracles on the same runs',
     text='Model: HaveStable, ReservedBacked, AskOnlyAdvertisedAndLacked, NoPanic over all interleavings of adversarial peers. Implementation: the whole manager state after every command must equal the state the spec action produces; invariants evaluated in every observed state.',
     note='Trusted: TLC, the trace re-encoding in lib/swarm_trace.py (renaming/indexing only), in-memory duplex streams + current_thread runtime + paused clock instead of TCP/multi-thread runtime, SHA-1. Hook events are cross-checked against the bytes observed at the remote end. Design-level exploration is bounded (2-3 peers, 1-3 pieces, fuel-limited adversarial remotes).',
     ref='DESIGN.md 6/C12'),
  'C13': dict(
-    technique='TLA+ specification of the session (Swarm.tla: manager, connection tasks, command/reply/broadcast channels, piece store) model-checked by TLC on a bounded instance; full-stack executions of the real Session/PeerHandler/Connection recorded through cfg(rdest_verif) hooks and validated event by event against the specification by TLC (SwarmTrace.tla); wire/disk oracles on the same runs',
+    technique='TLA+ specification of the session (Swarm.tla: manager, connection tasks, command/reply/broadcast channels, piece store) model-checked by TLC on a bounded instance; full-stack executions of the real Session/PeerHandler/Connection recorded through cfg(rdest_verif) hooks and validated event by event against the specification by TLC (SwarmTrace.tla); executions the specification does not explain are re-read by TLC at property level (SwarmObs.tla: logged states, property formulas and per-step formulas, no specification action) so that only a broken property, not a changed behaviour, is reported; wire/disk oracles on the same runs',
     text='PickSet transcribes the statement (candidates, rarest, end game, none iff no candidate; PickSound checks the clauses separately); every logged choice of the real choose_piece_index must be in PickSet of the logged pre-state, incl. 12-piece torrents on both sides of END_GAME_LIMIT.',
     note='Trusted: TLC, the trace re-encoding in lib/swarm_trace.py (renaming/indexing only), in-memory duplex streams + current_thread runtime + paused clock instead of TCP/multi-thread runtime, SHA-1. Hook events are cross-checked against the bytes observed at the remote end. Design-level exploration is bounded (2-3 peers, 1-3 pieces, fuel-limited adversarial remotes).',
     ref='DESIGN.md 6/C13'),
  'C14': dict(
-    technique='TLA+ specification of the session (Swarm.tla: manager, connection tasks, command/reply/broadcast channels, piece store) model-checked by TLC on a bounded instance; full-stack executions of the real Session/PeerHandler/Connection recorded through cfg(rdest_verif) hooks and validated event by event against the specification by TLC (SwarmTrace.tla); wire/disk oracles on the same runs',
+    technique='TLA+ specification of the session (Swarm.tla: manager, connection tasks, command/reply/broadcast channels, piece store) model-checked by TLC on a bounded instance; full-stack executions of the real Session/PeerHandler/Connection recorded through cfg(rdest_verif) hooks and validated event by event against the specification by TLC (SwarmTrace.tla); executions the specification does not explain are re-read by TLC at property level (SwarmObs.tla: logged states, property formulas and per-step formulas, no specification action) so that only a broken property, not a changed behaviour, is reported; wire/disk oracles on the same runs',
     text='Model: SlotBound in every state, RotationPolicy on every executed rotation, ViewAgreement at quiescent states (TLC found the reply/broadcast race fixed in e10dd91). Implementation: up to 14 peers against the real limits with injected rate vectors, interest flips, rotations, and the timer/command race reproduced with tokio::time::advance.',
     note='Trusted: TLC, the trace re-encoding in lib/swarm_trace.py (renaming/indexing only), in-memory duplex streams + current_thread runtime + paused clock instead of TCP/multi-thread runtime, SHA-1. Hook events are cross-checked against the bytes observed at the remote end. Design-level exploration is bounded (2-3 peers, 1-3 pieces, fuel-limited adversarial remotes).',
     ref='DESIGN.md 6/C14'),
@@ -101,7 +101,7 @@ CLAIMS = {
     note='Trusted: TLC, the scripted transport at the reqwest boundary (hook H3), virtual time. Channel capacity scaled to 2-3 in the model.',
     ref='DESIGN.md 6/C19, 5.7'),
  'C20': dict(
-    technique='TLA+ specification of the session (Swarm.tla: manager, connection tasks, command/reply/broadcast channels, piece store) model-checked by TLC on a bounded instance; full-stack executions of the real Session/PeerHandler/Connection recorded through cfg(rdest_verif) hooks and validated event by event against the specification by TLC (SwarmTrace.tla); wire/disk oracles on the same runs',
+    technique='TLA+ specification of the session (Swarm.tla: manager, connection tasks, command/reply/broadcast channels, piece store) model-checked by TLC on a bounded instance; full-stack executions of the real Session/PeerHandler/Connection recorded through cfg(rdest_verif) hooks and validated event by event against the specification by TLC (SwarmTrace.tla); executions the specification does not explain are re-read by TLC at property level (SwarmObs.tla: logged states, property formulas and per-step formulas, no specification action) so that only a broken property, not a changed behaviour, is reported; wire/disk oracles on the same runs',
     text='Model: keep-alive counter, timeout exit and release. Implementation in virtual time: silence patterns around the 120 s boundaries; emission instants of keep-alives, time of the timeout close (2-3 intervals after the last non-keep-alive message), never for live connections, peer forgotten afterwards.',
     note='Trusted: TLC, the trace re-encoding in lib/swarm_trace.py (renaming/indexing only), in-memory duplex streams + current_thread runtime + paused clock instead of TCP/multi-thread runtime, SHA-1. Hook events are cross-checked against the bytes observed at the remote end. Design-level exploration is bounded (2-3 peers, 1-3 pieces, fuel-limited adversarial remotes).',
     ref='DESIGN.md 6/C20'),
